@@ -84,6 +84,10 @@ func knownCases() []tcase {
 		{Name: "ok-submgr-fault-release-ipv4", Note: "dual-stack session, ReleaseIPv4 fails: the IPv6 address must still be released (seeded regression C16-C skips it)", Kind: "submgr", Path: "admin", Prefix: "active", Second: "none", Fault: "release-ipv4", P: withDual(sub)},
 		{Name: "ok-submgr-fault-release-ipv6", Kind: "submgr", Path: "idle", Prefix: "addressed", Second: "none", Fault: "release-ipv6", P: withDual(sub)},
 		{Name: "ok-submgr-fault-acct-stop", Note: "RADIUS refuses the Stop of a disconnected session: everything else is released, the AccountingManager's retry delivers exactly one Stop", Kind: "submgr", Path: "coa-disconnect", Prefix: "active", Second: "none", Fault: "acct-stop-retried", P: withDual(sub)},
+		{Name: "ok-dhcp-release-odd-ciaddr", Note: "RELEASE whose ciaddr names another client's address: either the session ends completely or it stays fully intact (seeded regression C16-E: lease deleted, nothing released)", Kind: "dhcp", Path: "release-odd", Prefix: "acked", Second: "none", P: withOdd(full, "other", "", "correct", "same")},
+		{Name: "ok-dhcp-release-odd-direct", Kind: "dhcp-relay", Path: "release-odd", Prefix: "renewed", Second: "seq:release", P: withOdd(relay, "outside", "", "absent", "direct")},
+		{Name: "ok-dhcp-decline-odd-foreign", Note: "DECLINE naming another client's address is ignored: session intact, the other client untouched, an orderly RELEASE then ends it", Kind: "dhcp", Path: "decline-odd", Prefix: "acked", Second: "none", P: withOdd(full, "zero", "other", "correct", "same")},
+		{Name: "ok-dhcp-decline-odd-sid", Kind: "dhcp-relay", Path: "decline-odd", Prefix: "initreboot", Second: "none", P: withOdd(relay, "correct", "correct", "other", "same")},
 		{Name: "kf-pppoe-lcp-term", Note: "LCP Terminate-Request on an established session: the address is never released", Kind: "pppoe", Path: "lcp-term", Prefix: "established", Second: "none", P: ppp},
 		{Name: "kf-pppoe-idle", Note: "idle sweep removes the session, the address stays allocated", Kind: "pppoe", Path: "idle", Prefix: "authed", Second: "none", P: ppp},
 		{Name: "kf-pppoe-auth-fail", Note: "re-authentication rejected, closed session reaped by the idle sweep, address stays allocated", Kind: "pppoe", Path: "auth-fail", Prefix: "established", Second: "none", P: ppp},
@@ -98,6 +102,7 @@ func knownCases() []tcase {
 		{Name: "kf-submgr-parked", Note: "TerminateSession parked in ReleaseIPv4, Disconnect-Request meanwhile, address re-used: released under the new holder, two terminate events", Kind: "submgr", Path: "admin", Prefix: "active", Second: "parked:coa-disconnect", ParkAt: "alloc", P: sub},
 		{Name: "kf-submgr-parked-idle", Kind: "submgr", Path: "idle", Prefix: "addressed", Second: "parked:admin", ParkAt: "alloc", P: sub},
 		{Name: "ok-submgr-stale-sweep", Note: "the idle sweep is releasing the first of three expired sessions when another one of its list is disconnected by RADIUS; the sweep then comes to it: nothing more happens", Kind: "submgr", Path: "idle", Prefix: "active", Second: "stale:coa-disconnect", ParkAt: "alloc", P: withBg2(sub)},
+		{Name: "ok-submgr-shutdown-during-sweep", Note: "Manager.Stop() while the idle sweep is inside its first ReleaseIPv4: the sessions it still ends must get their addresses back (seeded regression C16-F releases with the cancelled manager context)", Kind: "submgr", Path: "shutdown-during-sweep", Prefix: "active", Second: "none", P: withSweep(withBg2(withDual(sub)), "idle")},
 		{Name: "ok-submgr-coa-then-admin", Kind: "submgr", Path: "coa-disconnect", Prefix: "active", Second: "seq:admin", P: sub},
 		{Name: "ok-submgr-session-timeout", Kind: "submgr", Path: "session-timeout", Prefix: "active", Second: "none", P: sub},
 	}
@@ -109,8 +114,13 @@ func withBg2(p params) params {
 	p.BgMACs = []hexb{{0x02, 0x16, 0, 0, 0, 0x11}, {0x02, 0x16, 0, 0, 0, 0x12}}
 	return p
 }
-func withDual(p params) params { p.DualStack = true; return p }
-func withCid2(p params) params { p.Cid2 = hexb("eth 1/2/3:200"); return p }
+func withOdd(p params, ci, req, sid, via string) params {
+	p.OddCi, p.OddReq, p.OddSid, p.OddVia = ci, req, sid, via
+	return p
+}
+func withSweep(p params, by string) params { p.SweepBy = by; return p }
+func withDual(p params) params             { p.DualStack = true; return p }
+func withCid2(p params) params             { p.Cid2 = hexb("eth 1/2/3:200"); return p }
 
 func TestReplayKnown(t *testing.T) {
 	dump := os.Getenv("C16_WRITE_REPLAYS")
